@@ -99,7 +99,7 @@ class Gen(object):
 
     # -- trees ----------------------------------------------------------------------------
     def maybe_sign(self, out):
-        if self.mode == "s" and self.r.random() < 0.5:
+        if self.mode == "s":
             out.append(["signed"])
         elif self.mode == "m" and self.r.random() < 0.08:
             out.append([self.r.choice(["signed", "unsigned"])])
